@@ -1,12 +1,1095 @@
-// Package c07: correspondence harness of C07 (stub: replaced when C07 is built).
+// Package c07: regeneration depends only on the current sources, not on the old derived.gen.go.
+//
+// Edit histories v0 -> v1 -> ... over generated packages (retype a variable / struct field, add or
+// remove a derive call, wrap/unwrap a call so that a derive result feeds another derive call, rename
+// a function, rename a named type, remove every call).  After each step goderive runs ONCE in the
+// directory that still holds the previous derived.gen.go; the bytes it leaves are compared with those
+// of a scratch copy of the same sources (fresh directory, no derived.gen.go), together with the exit
+// status, `go vet`, and a second run (must change nothing).  Crash points: derived.gen.go is replaced
+// by the first k bytes of the previous output and of the new output.
+//
+// Every run is reported to the evaluator as
+//
+//	(regen PKG OLD REAL SAME)
+//
+// PKG = the package as derive-call expressions, OLD = what a type checker can still read in the old
+// file (an oracle computed here with go/parser, independent of goderive), REAL = the function table of
+// the file left behind, SAME = byte equality with the scratch result.
 package c07
 
 import (
+	"bytes"
 	"fmt"
+	"go/ast"
+	"go/parser"
+	"go/token"
+	"os"
+	"path/filepath"
+	"sort"
+	"strings"
+	"sync"
 
 	"verifharness/internal/hx"
 )
 
+// ---------- abstract packages ----------
+
+type ty struct {
+	kind int // 0 base, 1 slice, 2 map, 3 void
+	base int
+	a, b *ty // slice: a; map: a key, b value
+}
+
+var baseNames = map[int]string{0: "int", 1: "string", 2: "int64", 3: "float64", 9: "struct{}",
+	10: "N0", 11: "N1", 12: "N2", 13: "N3"}
+var namedUnder = map[int]string{10: "int", 11: "string", 12: "int", 13: "string"}
+
+func tBase(n int) *ty   { return &ty{kind: 0, base: n} }
+func tSlice(e *ty) *ty  { return &ty{kind: 1, a: e} }
+func tMap(k, v *ty) *ty { return &ty{kind: 2, a: k, b: v} }
+func (t *ty) goStr() string {
+	switch t.kind {
+	case 0:
+		return baseNames[t.base]
+	case 1:
+		return "[]" + t.a.goStr()
+	case 2:
+		return "map[" + t.a.goStr() + "]" + t.b.goStr()
+	}
+	return "()"
+}
+func (t *ty) sexp() string {
+	switch t.kind {
+	case 0:
+		return fmt.Sprintf("(base %d)", t.base)
+	case 1:
+		return "(slice " + t.a.sexp() + ")"
+	case 2:
+		return "(map " + t.a.sexp() + " " + t.b.sexp() + ")"
+	}
+	return "void"
+}
+func (t *ty) bases(set map[int]bool) {
+	switch t.kind {
+	case 0:
+		set[t.base] = true
+	case 1:
+		t.a.bases(set)
+	case 2:
+		t.a.bases(set)
+		t.b.bases(set)
+	}
+}
+
+const (
+	kKeys = 0
+	kSort = 1
+	kSet  = 2
+)
+
+var kindSym = []string{"keys", "sort", "set"}
+var kindPrefix = []string{"deriveKeys", "deriveSort", "deriveSet"}
+var suffixes = []string{"", "A", "B", "C", "D", "E", "F", "G", "H", "J"}
+
+func nameID(k, suf int) int     { return k*len(suffixes) + suf }
+func nameStr(k, suf int) string { return kindPrefix[k] + suffixes[suf] }
+
+// resOf mirrors what the plugins produce (only used to build well-typed expressions).
+func resOf(k int, t *ty) *ty {
+	switch {
+	case k == kKeys && t.kind == 2:
+		return tSlice(t.a)
+	case k == kSort && t.kind == 1:
+		return tSlice(t.a)
+	case k == kSet && t.kind == 1:
+		return tMap(t.a, tBase(9))
+	}
+	return nil
+}
+
+type expr struct {
+	isVar  bool
+	v      int // variable id
+	k, suf int // call
+	a      *expr
+}
+
+type top struct {
+	e    *expr
+	form int // 0: var _ = E   1: func body   2: inner call through a local variable
+}
+
+type version struct {
+	vars    map[int]*ty
+	field   map[int]bool // variable is a field of struct S
+	tops    []top
+	nextVar int
+}
+
+func (v *version) clone() *version {
+	w := &version{vars: map[int]*ty{}, field: map[int]bool{}, nextVar: v.nextVar}
+	for k, t := range v.vars {
+		w.vars[k] = t
+	}
+	for k, b := range v.field {
+		w.field[k] = b
+	}
+	var cp func(e *expr) *expr
+	cp = func(e *expr) *expr {
+		if e == nil {
+			return nil
+		}
+		c := *e
+		c.a = cp(e.a)
+		return &c
+	}
+	for _, t := range v.tops {
+		w.tops = append(w.tops, top{cp(t.e), t.form})
+	}
+	return w
+}
+
+func (v *version) typeOf(e *expr) *ty {
+	if e.isVar {
+		return v.vars[e.v]
+	}
+	t := v.typeOf(e.a)
+	if t == nil {
+		return nil
+	}
+	return resOf(e.k, t)
+}
+
+func (v *version) varText(id int) string {
+	if v.field[id] {
+		return fmt.Sprintf("s.F%d", id)
+	}
+	return fmt.Sprintf("m%d", id)
+}
+
+func (v *version) exprText(e *expr) string {
+	if e.isVar {
+		return v.varText(e.v)
+	}
+	return nameStr(e.k, e.suf) + "(" + v.exprText(e.a) + ")"
+}
+
+func (v *version) exprSexp(e *expr) string {
+	if e.isVar {
+		return fmt.Sprintf("(var %d %s)", e.v, v.vars[e.v].sexp())
+	}
+	return fmt.Sprintf("(app %s %d %s)", kindSym[e.k], nameID(e.k, e.suf), v.exprSexp(e.a))
+}
+
+func usedVars(e *expr, set map[int]bool) {
+	if e.isVar {
+		set[e.v] = true
+		return
+	}
+	usedVars(e.a, set)
+}
+
+// ver is what the step procedure needs: sources, abstract package, name and type tables.
+type ver struct {
+	src    string
+	pkg    string         // PKG s-expression
+	names  map[string]int // function name -> kind*100 + id ... see nameInfo
+	kinds  map[string]int
+	types  map[string]int // type identifier -> base id (declared in this version)
+	sparse int            // corpus: crash points only every sparse-th byte in the quick tier (slow packages)
+}
+
+func (v *version) render() ver {
+	var b strings.Builder
+	b.WriteString("package p\n\n")
+	used := map[int]bool{}
+	for _, t := range v.tops {
+		usedVars(t.e, used)
+	}
+	ids := []int{}
+	for id := range used {
+		ids = append(ids, id)
+	}
+	sort.Ints(ids)
+	bs := map[int]bool{}
+	for _, id := range ids {
+		v.vars[id].bases(bs)
+	}
+	types := map[string]int{"int": 0, "string": 1, "int64": 2, "float64": 3}
+	for _, n := range []int{10, 11, 12, 13} {
+		if bs[n] {
+			fmt.Fprintf(&b, "type %s %s\n\n", baseNames[n], namedUnder[n])
+			types[baseNames[n]] = n
+		}
+	}
+	hasField := false
+	for _, id := range ids {
+		if v.field[id] {
+			hasField = true
+		}
+	}
+	if hasField {
+		b.WriteString("type S struct {\n")
+		for _, id := range ids {
+			if v.field[id] {
+				fmt.Fprintf(&b, "\tF%d %s\n", id, v.vars[id].goStr())
+			}
+		}
+		b.WriteString("}\n\nvar s S\n\n")
+	}
+	for _, id := range ids {
+		if !v.field[id] {
+			fmt.Fprintf(&b, "var m%d %s\n", id, v.vars[id].goStr())
+		}
+	}
+	b.WriteString("\n")
+	var pk []string
+	names := map[string]int{}
+	kinds := map[string]int{}
+	var reg func(e *expr)
+	reg = func(e *expr) {
+		if e.isVar {
+			return
+		}
+		names[nameStr(e.k, e.suf)] = nameID(e.k, e.suf)
+		kinds[nameStr(e.k, e.suf)] = e.k
+		reg(e.a)
+	}
+	for i, t := range v.tops {
+		reg(t.e)
+		switch {
+		case t.form == 2 && !t.e.isVar && !t.e.a.isVar:
+			// x := INNER; OUTER(x): the finder meets INNER first, then OUTER whose argument has INNER's type
+			fmt.Fprintf(&b, "func f%d() int {\n\tx := %s\n\treturn len(%s(x))\n}\n\n", i, v.exprText(t.e.a), nameStr(t.e.k, t.e.suf))
+			pk = append(pk, v.exprSexp(t.e.a), v.exprSexp(t.e))
+		case t.form == 1:
+			fmt.Fprintf(&b, "func f%d() int { return len(%s) }\n\n", i, v.exprText(t.e))
+			pk = append(pk, v.exprSexp(t.e))
+		default:
+			fmt.Fprintf(&b, "var _ = %s\n\n", v.exprText(t.e))
+			pk = append(pk, v.exprSexp(t.e))
+		}
+	}
+	return ver{src: b.String(), pkg: "(" + strings.Join(pk, " ") + ")", names: names, kinds: kinds, types: types}
+}
+
+// ---------- generation of versions and edits ----------
+
+var plainBases = []int{0, 1, 2, 3, 10, 11}
+
+func randVarType(r *hx.Rand) *ty {
+	b := func() *ty { return tBase(hx.Pick(r, plainBases)) }
+	switch r.Intn(5) {
+	case 0, 1:
+		return tMap(b(), b())
+	case 2:
+		return tMap(b(), tSlice(b()))
+	default:
+		return tSlice(b())
+	}
+}
+
+// sameShape gives another type usable wherever t is (map stays map, slice stays slice).
+func sameShape(r *hx.Rand, t *ty) *ty {
+	for i := 0; i < 20; i++ {
+		var n *ty
+		if t.kind == 2 {
+			n = tMap(tBase(hx.Pick(r, plainBases)), t.b)
+			if r.Intn(3) == 0 {
+				n.b = tBase(hx.Pick(r, plainBases))
+			}
+		} else {
+			n = tSlice(tBase(hx.Pick(r, plainBases)))
+		}
+		if n.goStr() != t.goStr() {
+			return n
+		}
+	}
+	return t
+}
+
+func (v *version) pickSuffix(r *hx.Rand, k int, argT *ty, under *expr) int {
+	// reuse the name of a call of the same plugin with the same argument type, otherwise mostly a fresh one
+	usedBy := map[int]string{}
+	var walk func(e *expr)
+	walk = func(e *expr) {
+		if e.isVar {
+			return
+		}
+		if e.k == k {
+			if t := v.typeOf(e.a); t != nil {
+				usedBy[e.suf] = t.goStr()
+			} else {
+				usedBy[e.suf] = "?"
+			}
+		}
+		walk(e.a)
+	}
+	for _, t := range v.tops {
+		walk(t.e)
+	}
+	walk(under)
+	sufs := []int{}
+	for suf := range usedBy {
+		sufs = append(sufs, suf)
+	}
+	sort.Ints(sufs)
+	for _, suf := range sufs {
+		ts := usedBy[suf]
+		if ts == argT.goStr() && r.Intn(10) < 7 {
+			return suf
+		}
+	}
+	if r.Intn(25) == 0 && len(sufs) > 0 { // rarely: a clashing name (goderive must refuse, from scratch too)
+		return sufs[0]
+	}
+	for suf := range suffixes {
+		if _, ok := usedBy[suf]; !ok {
+			return suf
+		}
+	}
+	return r.Intn(len(suffixes))
+}
+
+func (v *version) wrap(r *hx.Rand, e *expr) *expr {
+	t := v.typeOf(e)
+	if t == nil {
+		return nil
+	}
+	var ks []int
+	if t.kind == 2 {
+		ks = []int{kKeys}
+	} else if t.kind == 1 {
+		ks = []int{kSet} // deriveSort's output imports "sort", which costs the loader ~1.5 s per run: corpus only
+	}
+	if len(ks) == 0 {
+		return nil
+	}
+	k := hx.Pick(r, ks)
+	return &expr{k: k, suf: v.pickSuffix(r, k, t, e), a: e}
+}
+
+func (v *version) newTop(r *hx.Rand, maxDepth int) {
+	var e *expr
+	if len(v.vars) > 0 && r.Intn(3) == 0 {
+		ids := []int{}
+		for id := range v.vars {
+			ids = append(ids, id)
+		}
+		sort.Ints(ids)
+		e = &expr{isVar: true, v: hx.Pick(r, ids)}
+	} else {
+		id := v.nextVar
+		v.nextVar++
+		v.vars[id] = randVarType(r)
+		v.field[id] = r.Intn(3) == 0
+		e = &expr{isVar: true, v: id}
+	}
+	d := 1 + r.Intn(maxDepth)
+	for i := 0; i < d; i++ {
+		w := v.wrap(r, e)
+		if w == nil {
+			break
+		}
+		e = w
+	}
+	if e.isVar {
+		return
+	}
+	t := top{e, r.Intn(3)}
+	pos := r.Intn(len(v.tops) + 1)
+	v.tops = append(v.tops, top{})
+	copy(v.tops[pos+1:], v.tops[pos:])
+	v.tops[pos] = t
+}
+
+func randVersion(r *hx.Rand) *version {
+	v := &version{vars: map[int]*ty{}, field: map[int]bool{}}
+	n := 1 + r.Intn(4)
+	for i := 0; i < n; i++ {
+		v.newTop(r, 3)
+	}
+	if r.Intn(8) != 0 {
+		v.repair()
+	}
+	return v
+}
+
+// repair renames call sites the way a user would after goderive's "conflicting/ambiguous function
+// names" refusal: one name per (plugin, argument type).
+func (v *version) repair() {
+	type key struct {
+		k int
+		t string
+	}
+	nameOf := map[key]int{}
+	typeOf := map[[2]int]string{}
+	var walk func(e *expr)
+	walk = func(e *expr) {
+		if e.isVar {
+			return
+		}
+		walk(e.a) // inner calls first: their names decide the types further out
+		t := v.typeOf(e.a)
+		if t == nil {
+			return
+		}
+		ts := t.goStr()
+		if s, ok := nameOf[key{e.k, ts}]; ok {
+			e.suf = s
+			return
+		}
+		if old, ok := typeOf[[2]int{e.k, e.suf}]; ok && old != ts {
+			for s := range suffixes {
+				if _, used := typeOf[[2]int{e.k, s}]; !used {
+					e.suf = s
+					break
+				}
+			}
+		}
+		nameOf[key{e.k, ts}] = e.suf
+		typeOf[[2]int{e.k, e.suf}] = ts
+	}
+	for _, t := range v.tops {
+		walk(t.e)
+	}
+}
+
+// edit returns the next version and a description of the edit.
+func edit(r *hx.Rand, v *version) (*version, string) {
+	w, d := edit1(r, v)
+	if r.Intn(8) != 0 {
+		w.repair()
+	}
+	return w, d
+}
+
+func edit1(r *hx.Rand, v *version) (*version, string) {
+	w := v.clone()
+	for try := 0; try < 10; try++ {
+		switch c := r.Intn(20); {
+		case c < 6: // retype a variable or field
+			used := map[int]bool{}
+			for _, t := range w.tops {
+				usedVars(t.e, used)
+			}
+			ids := []int{}
+			for id := range used {
+				ids = append(ids, id)
+			}
+			if len(ids) == 0 {
+				continue
+			}
+			sort.Ints(ids)
+			id := hx.Pick(r, ids)
+			if r.Intn(15) == 0 { // shape change: the calls on it no longer type-check
+				if w.vars[id].kind == 2 {
+					w.vars[id] = tSlice(tBase(0))
+				} else {
+					w.vars[id] = tMap(tBase(1), tBase(0))
+				}
+				return w, "reshape-variable"
+			}
+			w.vars[id] = sameShape(r, w.vars[id])
+			if w.field[id] {
+				return w, "retype-field"
+			}
+			return w, "retype-variable"
+		case c < 9:
+			w.newTop(r, 3)
+			return w, "add-call"
+		case c < 11:
+			if len(w.tops) == 0 {
+				continue
+			}
+			i := r.Intn(len(w.tops))
+			w.tops = append(w.tops[:i], w.tops[i+1:]...)
+			return w, "remove-call"
+		case c < 14: // a derive result now feeds another derive call
+			if len(w.tops) == 0 {
+				continue
+			}
+			i := r.Intn(len(w.tops))
+			if e := w.wrap(r, w.tops[i].e); e != nil {
+				w.tops[i].e = e
+				w.tops[i].form = r.Intn(3)
+				return w, "wrap-call"
+			}
+		case c < 16: // ... or no longer does
+			if len(w.tops) == 0 {
+				continue
+			}
+			i := r.Intn(len(w.tops))
+			if !w.tops[i].e.isVar && !w.tops[i].e.a.isVar {
+				if r.Bool() {
+					w.tops[i].e = w.tops[i].e.a
+				} else { // drop the inner call: the outer one is now fed by what fed the inner one
+					inner := w.tops[i].e.a
+					if t := w.typeOf(inner.a); t != nil && resOf(w.tops[i].e.k, t) != nil {
+						w.tops[i].e.a = inner.a
+					} else {
+						w.tops[i].e = inner
+					}
+				}
+				return w, "unwrap-call"
+			}
+		case c < 17: // rename the function at one call site
+			if len(w.tops) == 0 {
+				continue
+			}
+			e := w.tops[r.Intn(len(w.tops))].e
+			e.suf = (e.suf + 1 + r.Intn(len(suffixes)-1)) % len(suffixes)
+			return w, "rename-function"
+		case c < 18: // rename a named type (N0 -> N2, N1 -> N3 and back)
+			ren := map[int]int{10: 12, 12: 10, 11: 13, 13: 11}
+			changed := false
+			var rt func(t *ty) *ty
+			rt = func(t *ty) *ty {
+				switch t.kind {
+				case 0:
+					if n, ok := ren[t.base]; ok {
+						changed = true
+						return tBase(n)
+					}
+					return t
+				case 1:
+					return tSlice(rt(t.a))
+				default:
+					return tMap(rt(t.a), rt(t.b))
+				}
+			}
+			for id, t := range w.vars {
+				w.vars[id] = rt(t)
+			}
+			if changed {
+				return w, "rename-type"
+			}
+		case c < 19:
+			if len(w.tops) == 0 {
+				continue
+			}
+			w.tops = nil
+			return w, "remove-all-calls"
+		default:
+			return w, "no-change"
+		}
+	}
+	return w, "no-change"
+}
+
+// ---------- oracle: what is still readable in an old derived.gen.go ----------
+
+func tyOfAst(x ast.Expr, types map[string]int) *ty {
+	switch t := x.(type) {
+	case *ast.Ident:
+		if n, ok := types[t.Name]; ok {
+			return tBase(n)
+		}
+	case *ast.ArrayType:
+		if t.Len == nil {
+			if e := tyOfAst(t.Elt, types); e != nil {
+				return tSlice(e)
+			}
+		}
+	case *ast.MapType:
+		k, v := tyOfAst(t.Key, types), tyOfAst(t.Value, types)
+		if k != nil && v != nil {
+			return tMap(k, v)
+		}
+	case *ast.StructType:
+		if t.Fields == nil || len(t.Fields.List) == 0 {
+			return tBase(9)
+		}
+	}
+	return nil
+}
+
+// classifyOld: OLD s-expression for the bytes of a (possibly cut off) derived.gen.go with respect to
+// the names and declared types of the current sources.
+func classifyOld(src []byte, exists bool, v ver) (string, string) {
+	if !exists {
+		return "absent", "absent"
+	}
+	fset := token.NewFileSet()
+	if _, err := parser.ParseFile(fset, "derived.gen.go", src, parser.ImportsOnly); err != nil {
+		return "nopkg", "header-cut"
+	}
+	f, err := parser.ParseFile(fset, "derived.gen.go", src, parser.ParseComments)
+	if f == nil {
+		return "unparsable", "unparsable"
+	}
+	var sigs []string
+	nfun := 0
+	for _, d := range f.Decls {
+		fd, ok := d.(*ast.FuncDecl)
+		if !ok || fd.Name == nil || fd.Recv != nil {
+			continue
+		}
+		nfun++
+		id, ok := v.names[fd.Name.Name]
+		if !ok {
+			continue
+		}
+		res := "invalid"
+		if fd.Type.Results == nil || len(fd.Type.Results.List) == 0 {
+			res = "void"
+		} else if len(fd.Type.Results.List) == 1 && len(fd.Type.Results.List[0].Names) <= 1 {
+			if t := tyOfAst(fd.Type.Results.List[0].Type, v.types); t != nil {
+				res = t.sexp()
+			}
+		}
+		sigs = append(sigs, fmt.Sprintf("(%d %s)", id, res))
+	}
+	if err != nil && nfun == 0 {
+		return "unparsable", "cut-before-first-function"
+	}
+	cls := "complete"
+	if err != nil {
+		cls = "cut-inside-functions"
+	}
+	return "(file (" + strings.Join(sigs, " ") + "))", cls
+}
+
+// parseReal: REAL s-expression of the file a run left behind.
+func parseReal(exit int, src []byte, exists bool, v ver) string {
+	if exit != 0 {
+		return "err"
+	}
+	if !exists {
+		return "(ok deleted)"
+	}
+	fset := token.NewFileSet()
+	f, err := parser.ParseFile(fset, "derived.gen.go", src, parser.ParseComments)
+	if err != nil || f == nil {
+		return "(ok unparsable)"
+	}
+	var es []string
+	for _, d := range f.Decls {
+		fd, ok := d.(*ast.FuncDecl)
+		if !ok || fd.Recv != nil {
+			continue
+		}
+		name := fd.Name.Name
+		k := -1
+		for i, p := range kindPrefix {
+			if strings.HasPrefix(name, p) {
+				k = i
+			}
+		}
+		if k < 0 {
+			continue // helper of another plugin (deriveCompare...)
+		}
+		id, ok := v.names[name]
+		if !ok {
+			id = 999
+		}
+		ts := "(base 99)"
+		if fd.Type.Params != nil && len(fd.Type.Params.List) > 0 {
+			if t := tyOfAst(fd.Type.Params.List[0].Type, v.types); t != nil {
+				ts = t.sexp()
+			}
+		}
+		es = append(es, fmt.Sprintf("(%s %d %s)", kindSym[k], id, ts))
+	}
+	return "(ok (file (" + strings.Join(es, " ") + ")))"
+}
+
+// ---------- running ----------
+
+type outcome struct {
+	exit   int
+	exists bool
+	bytes  []byte
+	log    string
+}
+
+func runIn(cfg hx.Config, dir string, v ver, old []byte, oldExists bool) outcome {
+	os.MkdirAll(dir, 0o755)
+	hx.Module(dir)
+	os.WriteFile(filepath.Join(dir, "a.go"), []byte(v.src), 0o644)
+	gen := filepath.Join(dir, "derived.gen.go")
+	var g hx.RunResult
+	for attempt := 0; attempt < 3; attempt++ {
+		if oldExists {
+			os.WriteFile(gen, old, 0o644)
+		} else {
+			os.Remove(gen)
+		}
+		g = hx.Goderive(cfg.Goderive, dir, ".")
+		if !g.TimedOut {
+			break // a 30 s timeout of a 10 ms run is the machine's load, not goderive: try again
+		}
+	}
+	b, err := os.ReadFile(gen)
+	return outcome{exit: g.Exit, exists: err == nil, bytes: b, log: g.Out}
+}
+
+func sameAs(a, s outcome) bool {
+	if s.exit != 0 {
+		return a.exit != 0
+	}
+	if a.exit != 0 {
+		return false
+	}
+	return a.exists == s.exists && bytes.Equal(a.bytes, s.bytes)
+}
+
+type collector struct {
+	mu   sync.Mutex
+	obs  map[string]int
+	meta *hx.Meta
+	nrun int
+	bad  int
+}
+
+func (c *collector) add(line string) {
+	c.mu.Lock()
+	c.obs[line]++
+	c.mu.Unlock()
+}
+
+func files(v ver, old []byte, oldExists bool) map[string]string {
+	m := map[string]string{"a.go": v.src, "go.mod": "module p\n\ngo 1.24\n"}
+	if oldExists {
+		m["derived.gen.go (before the run)"] = string(old)
+	}
+	return m
+}
+
+// observe one run: writes the observation and, for a difference, a direct record with the sources.
+func (c *collector) observe(cfg hx.Config, what string, v ver, old []byte, oldExists bool, a, s outcome) {
+	oldS, _ := classifyOld(old, oldExists, v)
+	same := 0
+	if sameAs(a, s) {
+		same = 1
+	}
+	kind := "regen"
+	if os.Getenv("VERIF_C07_PINNED") == "1" {
+		kind = "regen-pinned" // diagnostic: compare with the model of the code before the fixes
+	}
+	c.add(fmt.Sprintf("(%s %s %s %s %d)", kind, v.pkg, oldS, parseReal(a.exit, a.bytes, a.exists, v), same))
+	c.mu.Lock()
+	c.nrun++
+	if same == 0 && c.bad < 3 {
+		c.bad++
+		c.mu.Unlock()
+		fs := files(v, old, oldExists)
+		fs["derived.gen.go (after the run)"] = string(a.bytes)
+		fs["derived.gen.go (from scratch)"] = string(s.bytes)
+		c.meta.AddDirect(hx.Direct{Class: "c07-differs-from-scratch",
+			What:  fmt.Sprintf("%s: one goderive run over the old derived.gen.go does not leave the from-scratch result (exit %d vs %d from scratch)", what, a.exit, s.exit),
+			Files: fs, Cmd: "goderive .  (in a directory holding a.go, go.mod and the old derived.gen.go)",
+			Output: hx.Truncate(a.log, 1500)})
+		return
+	}
+	c.mu.Unlock()
+}
+
+type crashJob struct {
+	v     ver
+	src   []byte // the file that is cut
+	k     int
+	which string
+	s     outcome
+}
+
+func offsets(n int, tier string, sparse int) []int {
+	var ks []int
+	for k := 0; k <= n; k++ {
+		if sparse > 0 { // slow package (its derived.gen.go imports the standard library): thinner grid
+			step := sparse
+			if tier == "thorough" {
+				step = 3
+			}
+			if k%step == 0 || k == n-1 {
+				ks = append(ks, k)
+			}
+			continue
+		}
+		if tier == "thorough" || k < 64 || k%16 == 0 || k == n-1 {
+			ks = append(ks, k)
+		}
+	}
+	return ks
+}
+
 func Run(cfg hx.Config) (*hx.Meta, error) {
-	return nil, fmt.Errorf("C07: harness not built yet")
+	meta := &hx.Meta{Property: "C07", Seed: cfg.Seed, Tier: cfg.Tier}
+	col := &collector{obs: map[string]int{}, meta: meta}
+	r := hx.NewRand(cfg.Seed)
+
+	nh, steps := 12, 3
+	if cfg.Tier == "thorough" {
+		nh, steps = 30, 4
+	}
+	type hist struct {
+		name string
+		vers []ver
+		desc []string
+	}
+	var hists []hist
+	// regression corpus first
+	if ents, err := os.ReadDir(cfg.Corpus); err == nil {
+		for _, e := range ents {
+			if !strings.HasSuffix(e.Name(), ".hist") {
+				continue
+			}
+			b, err := os.ReadFile(filepath.Join(cfg.Corpus, e.Name()))
+			if err != nil {
+				return nil, err
+			}
+			h := hist{name: "corpus/" + e.Name()}
+			for i, part := range strings.Split(string(b), "\n-----\n") {
+				v, err := parseCorpusVersion(part)
+				if err != nil {
+					return nil, fmt.Errorf("%s version %d: %v", e.Name(), i, err)
+				}
+				h.vers = append(h.vers, v)
+				h.desc = append(h.desc, "corpus-step")
+			}
+			hists = append(hists, h)
+			meta.Count("history/corpus")
+		}
+	}
+	for i := 0; i < nh; i++ {
+		hr := r.Fork(uint64(i))
+		v := randVersion(hr)
+		h := hist{name: fmt.Sprintf("h%d", i), vers: []ver{v.render()}, desc: []string{"initial"}}
+		for s := 0; s < steps; s++ {
+			var d string
+			v, d = edit(hr, v)
+			if i%3 == 0 && s == steps-1 && len(v.tops) > 0 { // every third history ends with no derive call left
+				v = v.clone()
+				v.tops = nil
+				d = "remove-all-calls"
+			}
+			h.vers = append(h.vers, v.render())
+			h.desc = append(h.desc, d)
+		}
+		hists = append(hists, h)
+		meta.Count("history/generated")
+	}
+
+	var jobsMu sync.Mutex
+	var jobs []crashJob
+	hx.Parallel(len(hists), 16, func(hi int) {
+		h := hists[hi]
+		dir := filepath.Join(cfg.Work, fmt.Sprintf("hist%d", hi))
+		var prev outcome // what derived.gen.go holds before the step
+		for si, v := range h.vers {
+			sdir := filepath.Join(cfg.Work, fmt.Sprintf("hist%d-scratch%d", hi, si))
+			s := runIn(cfg, sdir, v, nil, false)
+			a := runIn(cfg, dir, v, prev.bytes, prev.exists)
+			col.observe(cfg, fmt.Sprintf("%s step %d (%s)", h.name, si, h.desc[si]), v, prev.bytes, prev.exists, a, s)
+			col.meta.CountSafe("edit/" + h.desc[si])
+			if s.exit != 0 {
+				col.meta.CountSafe("scratch/goderive-refuses")
+			} else if !s.exists {
+				col.meta.CountSafe("scratch/no-file")
+			} else {
+				col.meta.CountSafe("scratch/file")
+			}
+			if a.exit == 0 && s.exit == 0 {
+				// the result type-checks
+				if vet := hx.GoVet(dir, ""); vet.Exit != 0 {
+					fs := files(v, prev.bytes, prev.exists)
+					fs["derived.gen.go (after the run)"] = string(a.bytes)
+					col.meta.AddDirect(hx.Direct{Class: "c07-vet-fails",
+						What:  fmt.Sprintf("%s step %d (%s): goderive exit 0 but the package does not type-check", h.name, si, h.desc[si]),
+						Files: fs, Cmd: "goderive . && go vet .", Output: hx.Truncate(vet.Out, 1500)})
+				}
+				// one run suffices: a second run changes nothing
+				g2 := hx.Goderive(cfg.Goderive, dir, ".")
+				b2, err2 := os.ReadFile(filepath.Join(dir, "derived.gen.go"))
+				if g2.Exit != 0 || (err2 == nil) != a.exists || !bytes.Equal(b2, a.bytes) {
+					fs := files(v, prev.bytes, prev.exists)
+					fs["derived.gen.go (after run 1)"] = string(a.bytes)
+					fs["derived.gen.go (after run 2)"] = string(b2)
+					col.meta.AddDirect(hx.Direct{Class: "c07-second-run-changes",
+						What:  fmt.Sprintf("%s step %d (%s): a second goderive run changes derived.gen.go (exit %d)", h.name, si, h.desc[si], g2.Exit),
+						Files: fs, Cmd: "goderive . && goderive .", Output: hx.Truncate(g2.Out, 1500)})
+				}
+				col.mu.Lock()
+				col.nrun++
+				col.mu.Unlock()
+			}
+			// crash points: the first k bytes of the previous and of the new output
+			{
+				jobsMu.Lock()
+				if prev.exists {
+					for _, k := range offsets(len(prev.bytes), cfg.Tier, v.sparse) {
+						jobs = append(jobs, crashJob{v, prev.bytes, k, "previous", s})
+					}
+				}
+				if s.exit == 0 && s.exists {
+					for _, k := range offsets(len(s.bytes), cfg.Tier, v.sparse) {
+						jobs = append(jobs, crashJob{v, s.bytes, k, "new", s})
+					}
+				}
+				jobsMu.Unlock()
+			}
+			// the next step starts from whatever is on disk now
+			b, err := os.ReadFile(filepath.Join(dir, "derived.gen.go"))
+			prev = outcome{exists: err == nil, bytes: b}
+		}
+	})
+
+	// several packages in one invocation (goderive ./...): each package directory holds the output of
+	// an earlier version (or a cut-off file); the result per package must be the scratch result
+	nm := 4
+	if cfg.Tier == "thorough" {
+		nm = 24
+	}
+	gen := []hist{}
+	for _, h := range hists {
+		if !strings.HasPrefix(h.name, "corpus/") {
+			gen = append(gen, h)
+		}
+	}
+	hx.Parallel(nm, 16, func(mi int) {
+		mr := r.Fork(uint64(1000 + mi))
+		root := filepath.Join(cfg.Work, fmt.Sprintf("multi%d", mi))
+		sroot := filepath.Join(cfg.Work, fmt.Sprintf("multi%d-scratch", mi))
+		npk := 2 + mr.Intn(2)
+		type pk struct {
+			v         ver
+			old       []byte
+			oldExists bool
+		}
+		var pks []pk
+		for _, rt := range []string{root, sroot} {
+			os.MkdirAll(rt, 0o755)
+			hx.Module(rt)
+		}
+		for pi := 0; pi < npk; pi++ {
+			h := gen[mr.Intn(len(gen))]
+			si := 1 + mr.Intn(len(h.vers)-1)
+			v := h.vers[si]
+			// old file: the from-scratch output of the previous version, possibly cut off
+			o := runIn(cfg, filepath.Join(cfg.Work, fmt.Sprintf("multi%d-old%d", mi, pi)), h.vers[si-1], nil, false)
+			old, ex := o.bytes, o.exists && o.exit == 0
+			if ex && mr.Intn(2) == 0 {
+				old = old[:mr.Intn(len(old)+1)]
+			}
+			pks = append(pks, pk{v, old, ex})
+			for _, rt := range []string{root, sroot} {
+				d := filepath.Join(rt, fmt.Sprintf("q%d", pi))
+				os.MkdirAll(d, 0o755)
+				os.WriteFile(filepath.Join(d, "a.go"), []byte(strings.Replace(v.src, "package p\n", fmt.Sprintf("package q%d\n", pi), 1)), 0o644)
+			}
+			if ex {
+				os.WriteFile(filepath.Join(root, fmt.Sprintf("q%d", pi), "derived.gen.go"), old, 0o644)
+			}
+		}
+		g := hx.Goderive(cfg.Goderive, root, "./...")
+		gs := hx.Goderive(cfg.Goderive, sroot, "./...")
+		col.meta.CountSafe("multi-package-invocation")
+		for pi, q := range pks {
+			rd := func(rt string, ex int, log string) outcome {
+				b, err := os.ReadFile(filepath.Join(rt, fmt.Sprintf("q%d", pi), "derived.gen.go"))
+				return outcome{exit: ex, exists: err == nil, bytes: b, log: log}
+			}
+			a, s := rd(root, g.Exit, g.Out), rd(sroot, gs.Exit, gs.Out)
+			if gs.Exit != 0 || g.Exit != 0 {
+				// goderive stops at the first failing package, in unspecified package order (C08): only the
+				// exit status is comparable
+				if (gs.Exit != 0) != (g.Exit != 0) {
+					col.meta.AddDirect(hx.Direct{Class: "c07-differs-from-scratch",
+						What:  fmt.Sprintf("multi-package invocation %d: exit %d over old files, %d from scratch", mi, g.Exit, gs.Exit),
+						Files: files(q.v, q.old, q.oldExists), Cmd: "goderive ./...", Output: hx.Truncate(g.Out, 1500)})
+				}
+				continue
+			}
+			v := q.v
+			v.src = strings.Replace(v.src, "package p\n", fmt.Sprintf("package q%d\n", pi), 1)
+			col.observe(cfg, fmt.Sprintf("multi-package invocation %d, package q%d", mi, pi), v, q.old, q.oldExists, a, s)
+		}
+	})
+
+	// crash points, in parallel, one directory per worker slot
+	dirs := make(chan string, 16)
+	for i := 0; i < 16; i++ {
+		dirs <- filepath.Join(cfg.Work, fmt.Sprintf("crash%d", i))
+	}
+	hx.Parallel(len(jobs), 16, func(i int) {
+		j := jobs[i]
+		dir := <-dirs
+		defer func() { dirs <- dir }()
+		cut := j.src[:j.k]
+		a := runIn(cfg, dir, j.v, cut, true)
+		_, cls := classifyOld(cut, true, j.v)
+		col.meta.CountSafe("crash-point/" + j.which + "-output/" + cls)
+		col.observe(cfg, fmt.Sprintf("derived.gen.go = first %d bytes of the %s output", j.k, j.which), j.v, cut, true, a, j.s)
+	})
+
+	lines := make([]string, 0, len(col.obs))
+	for l := range col.obs {
+		lines = append(lines, l)
+	}
+	sort.Strings(lines)
+	obs := filepath.Join(cfg.Out, "c07.obs")
+	if err := os.WriteFile(obs, []byte(strings.Join(lines, "\n")+"\n"), 0o644); err != nil {
+		return nil, err
+	}
+	meta.ObsFiles = append(meta.ObsFiles, obs)
+	meta.Packages = 0
+	for _, h := range hists {
+		meta.Packages += len(h.vers)
+	}
+	meta.GoderiveRuns = col.nrun + meta.Packages
+	meta.Cases = len(lines)
+	meta.Count(fmt.Sprintf("runs-observed=%d distinct-observations=%d crash-points=%d", col.nrun, len(lines), len(jobs)))
+	for i, l := range lines {
+		if i%(len(lines)/6+1) == 0 {
+			meta.Sample(hx.Truncate(l, 300))
+		}
+	}
+	return meta, nil
+}
+
+// parseCorpusVersion: a version of a corpus history is Go source preceded by header comments
+//
+//	//pkg: ((app sort 11 (app keys 0 (var 0 (map (base 0) (base 0))))))
+//	//names: deriveKeys=0 deriveSort=11
+func parseCorpusVersion(text string) (ver, error) {
+	v := ver{names: map[string]int{}, kinds: map[string]int{}, types: map[string]int{"int": 0, "string": 1, "int64": 2, "float64": 3}}
+	var src []string
+	for _, line := range strings.Split(text, "\n") {
+		switch {
+		case strings.HasPrefix(line, "//pkg: "):
+			v.pkg = strings.TrimPrefix(line, "//pkg: ")
+		case strings.HasPrefix(line, "//names: "):
+			for _, f := range strings.Fields(strings.TrimPrefix(line, "//names: ")) {
+				var n int
+				p := strings.SplitN(f, "=", 2)
+				if len(p) != 2 {
+					return v, fmt.Errorf("bad names entry %q", f)
+				}
+				fmt.Sscanf(p[1], "%d", &n)
+				v.names[p[0]] = n
+			}
+		case strings.HasPrefix(line, "//sparse: "):
+			fmt.Sscanf(strings.TrimPrefix(line, "//sparse: "), "%d", &v.sparse)
+		case strings.HasPrefix(line, "//types: "):
+			for _, f := range strings.Fields(strings.TrimPrefix(line, "//types: ")) {
+				var n int
+				p := strings.SplitN(f, "=", 2)
+				if len(p) != 2 {
+					return v, fmt.Errorf("bad types entry %q", f)
+				}
+				fmt.Sscanf(p[1], "%d", &n)
+				v.types[p[0]] = n
+			}
+		default:
+			src = append(src, line)
+		}
+	}
+	if v.pkg == "" {
+		return v, fmt.Errorf("missing //pkg: header")
+	}
+	v.src = strings.TrimLeft(strings.Join(src, "\n"), "\n")
+	if !strings.HasSuffix(v.src, "\n") {
+		v.src += "\n"
+	}
+	return v, nil
 }
